@@ -640,6 +640,31 @@ def oracle_public(res, case, o, tag):
         res.violate('public-tracer-order:' + tag, 'getTracerDiffusivity is not tracer_diffusivity() in the user element order', d, tr.tolist(), wt.tolist())
 
 
+def oracle_public_vector(res, case, o, tag):
+    """array calls of the public API: one composition at two temperatures (and a second composition) in ONE call answer, point by
+    point, what the scalar calls answer - the value handed out for (x, T2) is the interdiffusivity / tracer diffusivity AT (x, T2)"""
+    if case['synthetic']:
+        return
+    d = case['desc']; th = case['th']; x, T = case['x'], case['T']
+    T2 = T + (40.0 if T < 1400 else -40.0)
+    x2 = [v * 0.93 for v in x] if isinstance(x, (list, tuple, np.ndarray)) else x * 0.93
+    pts = [(x, T), (x, T2), (x2, T2), (x, T)]
+    xs = [q[0] for q in pts]; Ts = [q[1] for q in pts]
+    Dv = np.asarray(th.getInterdiffusivity(xs, Ts), dtype=float)
+    tv = np.asarray(th.getTracerDiffusivity(xs, Ts), dtype=float)
+    for i, (xi, Ti) in enumerate(pts[:3]):
+        Ds = np.asarray(th.getInterdiffusivity(xi, Ti), dtype=float)
+        ts = np.asarray(th.getTracerDiffusivity(xi, Ti), dtype=float)
+        dd = dict(d, point=i, x_i=np.asarray(xi).tolist(), T_i=Ti, call='x=%r, T=%r' % (np.asarray(xs).tolist(), Ts))
+        if not mclose(np.atleast_2d(Dv[i]), np.atleast_2d(Ds), 1e-6, float(np.abs(Ds).max()) * 1e-3):
+            res.violate('public-array-call-interdiffusivity:' + tag, 'entry %d of an array call of getInterdiffusivity is not the interdiffusivity at that '
+                        '(composition, temperature)' % i, dd, np.asarray(Dv[i]).tolist(), Ds.tolist())
+        if not mclose(np.atleast_1d(tv[i]), np.atleast_1d(ts), 1e-6):
+            res.violate('public-array-call-tracer:' + tag, 'entry %d of an array call of getTracerDiffusivity is not the tracer diffusivity at that '
+                        '(composition, temperature)' % i, dd, np.asarray(tv[i]).tolist(), ts.tolist())
+    res.count('public-array-call-checked:' + tag)
+
+
 KEY_DIFFONLY = 'darken-public-diffusivity-only-database'
 
 
@@ -1129,7 +1154,7 @@ def run(ctx, P, use_model=True):
                     compare_user(res, uc, answers[st:st + ln])
                 except (ValueError, StopIteration, IndexError) as e:
                     res.disagree('model answer malformed: %r' % (e,), uc['desc'], None, answers[st:st + ln][:1])
-        npairs = 0
+        npairs = 0; nvec = {}
         for (kind, name, seed, case, o, g), (st, ln, ntr, dark) in zip(cases, spans):
             tag = name if kind == 'real' else 'stub-' + name
             d = case['desc']
@@ -1156,6 +1181,9 @@ def run(ctx, P, use_model=True):
                 G(res, 'oracle-darken:' + tag, d, oracle_darken, res, case, o, tag, 1e-6)
                 G(res, 'public-api:' + tag, d, oracle_public, res, case, o, tag)
                 G(res, 'public-api-diffusivity-only:' + tag, d, oracle_public_diffonly, res, case, o, tag)
+                if nvec.get(name, 0) < ctx.n(3, 40):
+                    nvec[name] = nvec.get(name, 0) + 1
+                    G(res, 'public-api-array-call:' + tag, d, oracle_public_vector, res, case, o, tag)
                 if case['stable']:
                     G(res, 'monitored:' + tag, d, oracle_monitored, res, case, o, tag)
                 else:
